@@ -91,7 +91,13 @@ static struct orc_dt_s mkdt(long long y, long long m, long long d, long long H, 
 
 static bool small(long long y, long long m, long long d, long long H, long long M, long long S)
 {
-	return y >= 1902 && y <= 2098 && m >= 1 && m <= 12 && d >= 1 && d <= 31 && H >= 0 && H < 24 && M >= 0 && M < 60 && S >= 0 && S < 60;
+	/* (the termination obligations of C09 start in 2099, the last supported year) */
+#if defined YMIN
+	const long long ymax = 2099;
+#else
+	const long long ymax = 2098;
+#endif
+	return y >= 1902 && y <= ymax && m >= 1 && m <= 12 && d >= 1 && d <= 31 && H >= 0 && H < 24 && M >= 0 && M < 60 && S >= 0 && S < 60;
 }
 
 /* distance in periods of the frequency, as the oracle counts it */
@@ -116,6 +122,15 @@ void harness(void)
 	static echs_instant_t tgt[GRP_CCH_OFF + GRP_CCH_OFF];
 
 	sym_load();
+#if defined FIXDATE
+	/* slices that only vary the month (termination of the month-skipping loops): year, day and
+	 * time of DTSTART are constants of the obligation */
+	in.y = 2030, in.d = 15, in.H = 9, in.M = 30, in.S = 0;
+#endif
+#if defined FIXDAY
+	/* slices that vary year and month only (period arithmetic of the MONTHLY/YEARLY fillers) */
+	in.d = 15, in.H = 9, in.M = 30, in.S = 0;
+#endif
 	/* --- the rule */
 #if defined INTER
 	/* INTERVAL is a per-obligation constant: a symbolic divisor in the period
@@ -223,9 +238,8 @@ void harness(void)
 			}
 		}
 		WITNESS_POINT();
-		return;
 	}
-#endif
+#else
 	ASSUME(orc_member(&R, D, D));
 
 	/* --- COUNT / UNTIL */
@@ -299,4 +313,5 @@ void harness(void)
 		}
 	}
 	WITNESS_POINT();
+#endif
 }
